@@ -6,6 +6,7 @@ integers).  Used to turn `switch`/`if` tables and comparison-only code into expl
 compare with oracle tables.  Anything outside the recognised statement/expression forms raises OutOfFragment
 (reported as ANALYSIS-BROKEN for the dependent rule; never guessed).
 """
+from engine.facts import strip_targs
 
 
 class OutOfFragment(Exception):
@@ -386,7 +387,7 @@ class Interp:
             return self.eval(fn, S[n['args'][0]], env)      # std::function wrapping a lambda: the lambda value itself
         if k == 'CXXOperatorCallExpr' and n.get('op') == '()' and n.get('args'):
             lam = self.eval(fn, S[n['args'][0]], env)
-            if isinstance(lam, tuple) and lam and lam[0] == 'lambda':
+            if isinstance(lam, tuple) and lam and lam[0] in ('lambda', 'pyfn'):
                 return self.call_lambda(lam, [self.eval(fn, S[a], env) for a in n['args'][1:]])
         # repo function: interpret
         mn = n.get('mn')
@@ -445,6 +446,8 @@ class Interp:
                     return len(o)
                 if last == 'empty':
                     return len(o) == 0
+                if last.startswith('operator basic_string_view'):
+                    return o                      # a view of the string: the same bytes
                 if last in ('at', 'operator[]') and len(args) == 1:
                     i = self.eval(fn, S[args[0]], env)
                     if isinstance(i, int) and 0 <= i < len(o):
@@ -468,6 +471,13 @@ class Interp:
                     a0 = self.eval(fn, S[args[0]], env)
                     a0 = bytes([a0]) if isinstance(a0, int) else bytes(a0)
                     return bytes(o).startswith(a0) if last == 'starts_with' else bytes(o).endswith(a0)
+                if last == 'replace' and len(args) == 3 and isinstance(o, bytearray):
+                    pos, cnt, rep_ = (self.eval(fn, S[x], env) for x in args)
+                    if isinstance(pos, int) and isinstance(cnt, int) and isinstance(rep_, (bytes, bytearray)):
+                        if not (0 <= pos <= len(o)):
+                            raise OutOfFragment('replace position %r beyond the length %d (std::out_of_range) at %s' % (pos, len(o), fn.loc(n)))
+                        o[pos:pos + max(cnt, 0)] = bytes(rep_)
+                        return o
                 if last == 'data' and not args:
                     return ('sptr', bytes(o), 0)
                 if last in ('find_first_not_of', 'find_last_not_of', 'find_first_of', 'find_last_of', 'find', 'rfind') and args:
@@ -614,6 +624,13 @@ class Interp:
             if isinstance(o, list):
                 return {'std::begin': ('it', o, 0), 'std::cbegin': ('it', o, 0), 'std::end': ('it', o, len(o)), 'std::cend': ('it', o, len(o)),
                         'std::size': len(o), 'std::ssize': len(o), 'std::empty': len(o) == 0}[cs]
+            return NOT_HANDLED
+        if k == 'CallExpr' and cs == 'std::get' and len(n.get('args', [])) == 1 and n.get('targs') and '::' in str(n['targs'][0]):
+            o = self.eval(fn, S[n['args'][0]], env)
+            if isinstance(o, Obj) and o.get('__cls__'):
+                if strip_targs(o['__cls__']) == strip_targs(str(n['targs'][0])):
+                    return o
+                raise OutOfFragment('std::get<%s> on a variant that holds %s: throws std::bad_variant_access at %s' % (n['targs'][0], o['__cls__'], fn.loc(n)))
             return NOT_HANDLED
         if k == 'CallExpr' and cs in ('std::find_if', 'std::all_of', 'std::any_of', 'std::none_of', 'std::for_each', 'std::count_if') and len(n.get('args', [])) == 3:
             b, e, lam = (self.eval(fn, S[a], env) for a in n['args'])
@@ -977,6 +994,8 @@ class Interp:
 
     def call_lambda(self, lam, args):
         """call a lambda value ('lambda', Fn, defining env): captures are looked up in the defining environment"""
+        if lam[0] == 'pyfn':
+            return lam[1](*args)                  # a function value supplied by the harness (a translator map, a predicate)
         lf, cenv = lam[1], lam[2] if len(lam) > 2 else {}
         self.depth += 1
         if self.depth > 60:
